@@ -47,7 +47,7 @@ class C08(HistoryProperty):
         "dictionary inside a section or at a leaf"
     )
     ASSUMPTIONS = ["type-consistent dictionaries (no scalar at a section prefix)", "pre-sets of a derivation disjoint from leaves forced by its base"]
-    QUICK = {"runs": 2500, "wall": 40}
+    QUICK = {"runs": 15000, "wall": 40}
     THOROUGH = {"runs": 300000, "wall": 480}
     NONTRIVIAL_MEASURE = "history_with_overlap"
 
